@@ -186,3 +186,92 @@ theorem category_opcat (k c : List Char) : category [k, sepOpCat, c] = String.of
 example : catSplit 17 [] "bmm-opCatBmm_fp16".toList = ["bmm".toList, sepOpCat, "Bmm_fp16".toList] := by decide +kernel
 
 end AiuVerif.C11
+
+namespace AiuVerif.C11
+open AiuVerif.LogParse AiuVerif.PhaseName
+
+/-! ### a row as it is written into the log: `<first column><blanks><digits><blanks>\n` -/
+
+theorem tw_app {p : Char → Bool} : ∀ (a b : List Char), (∀ x ∈ a, p x = true) →
+    (∀ y ys, b = y :: ys → p y = false) → (a ++ b).takeWhile p = a ∧ (a ++ b).dropWhile p = b
+  | [], [], _, _ => ⟨rfl, rfl⟩
+  | [], y :: ys, _, hb => by
+    have := hb y ys rfl
+    simp [List.takeWhile, List.dropWhile, this]
+  | x :: a, b, ha, hb => by
+    have hx := ha x List.mem_cons_self
+    obtain ⟨h1, h2⟩ := tw_app a b (fun z hz => ha z (List.mem_cons_of_mem _ hz)) hb
+    simp only [List.cons_append, List.takeWhile_cons, List.dropWhile_cons, hx, if_true]
+    exact ⟨by rw [h1], h2⟩
+
+theorem chopNl_nl (l : List Char) : chopNl (l ++ ['\n']) = l := by
+  unfold chopNl
+  have : (l ++ ['\n']).getLast? = some '\n' := by simp
+  rw [this]
+  simp
+
+theorem digit_not_blank (c : Char) (h : c.isDigit = true) : (c == ' ') = false := by
+  by_cases hc : c = ' '
+  · subst hc; revert h; decide
+  · simpa using hc
+
+theorem nameCh_blank : isNameCh ' ' = false := by decide
+theorem digit_blank : Char.isDigit ' ' = false := by decide
+
+/-- **a written row is read back**: first column `name` (name characters only), `k+1` blanks, the decimal digits `dg`,
+`j` blanks and the newline - `dataRow` returns exactly `(name, dg)`. -/
+theorem dataRow_written (name dg : List Char) (k j : Nat) (hn : name ≠ []) (hd : dg ≠ [])
+    (hname : ∀ x ∈ name, isNameCh x = true) (hdg : ∀ x ∈ dg, x.isDigit = true) :
+    dataRow (name ++ (List.replicate (k + 1) ' ' ++ (dg ++ List.replicate j ' ')) ++ ['\n']) = some (name, dg) := by
+  unfold dataRow
+  simp only [chopNl_nl]
+  obtain ⟨d0, ds, rfl⟩ := List.exists_cons_of_ne_nil hd
+  have hd0 : d0.isDigit = true := hdg d0 List.mem_cons_self
+  -- the name ends at the first blank
+  obtain ⟨a1, a2⟩ := tw_app (p := isNameCh) name (List.replicate (k + 1) ' ' ++ (d0 :: ds ++ List.replicate j ' ')) hname
+    (by intro y ys h; rw [List.replicate_succ, List.cons_append] at h; injection h with h _; subst h; exact nameCh_blank)
+  -- the blanks end at the first digit
+  obtain ⟨b1, b2⟩ := tw_app (p := (· == ' ')) (List.replicate (k + 1) ' ') (d0 :: ds ++ List.replicate j ' ')
+    (by intro x hx; rw [List.eq_of_mem_replicate hx]; rfl)
+    (by intro y ys h; rw [List.cons_append] at h; injection h with h _; subst h; exact digit_not_blank _ hd0)
+  -- the digits end at the first blank (or the end)
+  obtain ⟨c1, c2⟩ := tw_app (p := Char.isDigit) (d0 :: ds) (List.replicate j ' ') hdg
+    (by intro y ys h
+        cases j with
+        | zero => simp at h
+        | succ j => rw [List.replicate_succ] at h; injection h with h _; subst h; exact digit_blank)
+  rw [a1, a2, b1, b2, c1, c2]
+  have hall : (List.replicate j ' ').all (· == ' ') = true := by
+    rw [List.all_eq_true]; intro x hx; rw [List.eq_of_mem_replicate hx]; rfl
+  have hn' : name.isEmpty = false := by cases name <;> simp_all
+  simp [hn', hall, List.replicate_succ]
+
+/-- **the whole chain for a `kernel-opCat<category>` row**: written with any blanks, not an ignored row and not the
+`Total` row, it contributes exactly the key `kernel Cmpt Exec`, its cycle count and its category. -/
+theorem rowOf_written (kn cat dg : List Char) (k j : Nat) (hk : kn ≠ []) (hd : dg ≠ [])
+    (hkn : ∀ x ∈ kn, isNameCh x = true ∧ x ≠ '-') (hcat : ∀ x ∈ cat, isNameCh x = true ∧ x ≠ '-')
+    (hdg : ∀ x ∈ dg, x.isDigit = true)
+    (hign : hasSubL patPre ((kn ++ sepOpCat ++ cat) ++ (List.replicate (k + 1) ' ' ++ (dg ++ List.replicate j ' ')) ++ ['\n']) = false ∧
+            hasSubL patLx ((kn ++ sepOpCat ++ cat) ++ (List.replicate (k + 1) ' ' ++ (dg ++ List.replicate j ' ')) ++ ['\n']) = false)
+    (htot : (String.ofList kn == "Total") = false) :
+    rowOf ((kn ++ sepOpCat ++ cat) ++ (List.replicate (k + 1) ' ' ++ (dg ++ List.replicate j ' ')) ++ ['\n']) =
+      some (String.ofList kn ++ " Cmpt Exec", digitsVal dg, String.ofList cat) := by
+  have hname : ∀ x ∈ kn ++ sepOpCat ++ cat, isNameCh x = true := by
+    intro x hx
+    simp only [List.mem_append] at hx
+    rcases hx with (hx | hx) | hx
+    · exact (hkn x hx).1
+    · simp only [sepOpCat, List.mem_cons, List.mem_nil_iff, or_false] at hx
+      rcases hx with rfl | rfl | rfl | rfl | rfl | rfl <;> decide
+    · exact (hcat x hx).1
+  have hne : kn ++ sepOpCat ++ cat ≠ [] := by simp [sepOpCat]
+  unfold rowOf
+  rw [dataRow_written _ dg k j hne hd hname hdg]
+  simp only [hign.1, hign.2, Bool.or_self, Bool.false_eq_true, if_false]
+  rw [catSplit_opcat kn cat _ [] (fun x hx => (hkn x hx).2) (fun x hx => (hcat x hx).2)
+    (by simp [sepOpCat]; omega)]
+  simp only [List.reverse_nil, List.nil_append, List.headD_cons, htot, Bool.false_eq_true, if_false, category_opcat]
+
+example : rowOf "bmm-opCatBmm_fp16      12288   \n".toList = some ("bmm Cmpt Exec", 12288, "Bmm_fp16") := by decide +kernel
+
+end AiuVerif.C11
